@@ -11,7 +11,7 @@ from vpbt.ctx import Violation
 
 @st.composite
 def case_strategy(draw):
-    prog = draw(gfi_strat.st_program(cfg={"oob": True}))
+    prog = draw(gfi_strat.st_program(cfg={"oob": True, "scan_nmin": 2}, kinds=gfi_strat.TOP_KINDS + ["scan"] * 4))
     prog["key"] = draw(st.integers(0, 2**31 - 1))
     prog["flag_repr"] = draw(st.sampled_from(["arr", "py"]))
     prog["idx_repr"] = draw(st.sampled_from(["arr", "py"]))
